@@ -158,9 +158,14 @@ def metas(rng, n_slices):
     return out
 
 
-def coords(rng, shape, P, L, res):
-    """list of (ps, pe, [evals]) for a complete rectangle / upper-left triangle / single row, column, diagonal"""
+def coords(rng, shape, P, L, res, feb=None):
+    """list of (ps, pe, [evals]) for a complete rectangle / upper-left triangle / single row, column, diagonal.
+    feb = a year: periods are laid out so that a period end / evaluation date is the last day of February of it."""
     y0, m0 = rng.randint(2000, 2020), rng.choice([1, 4, 7, 10]) if res != 12 else 1
+    if feb is not None:
+        # a period ending in February of `feb` sits at index j: start = Feb - (j+1)*res + 1 months
+        j = rng.randint(0, max(0, min(P, 3) - 1))
+        y0, m0 = add_m(feb, 2, -(j + 1) * res + 1)
     rows = []
     for p in range(P):
         sy, sm = add_m(y0, m0, p * res)
@@ -192,7 +197,11 @@ def gen_boot_triangle(rng):
     res = rng.choice([3, 12, 6])
     n_slices = rng.choice([1, 1, 2, 3])
     fields = rng.sample(["paid_loss", "reported_loss", "earned_premium"], rng.randint(1, 3))
-    rows = coords(rng, shape, P, L, res)
+    feb = None
+    if rng.random() < 0.35:                     # month ends on Feb 28/29: leap years, century rule
+        feb = rng.choice([2000, 2000, 2000, 2004, 2024, 2100, 2001, 1996, 2096])
+        res = rng.choice([1, 3, 3, 12, 6])
+    rows = coords(rng, shape, P, L, res, feb)
     cells = []
     small_first = rng.random() < 0.35     # minimum of a series small relative to its steps
     for m in metas(rng, n_slices):
@@ -206,7 +215,7 @@ def gen_boot_triangle(rng):
                     vals = {f: float(v) + 0.5 for f, v in vals.items()}
                 cells.append(CumulativeCell(period_start=ps, period_end=pe, evaluation_date=e, values=vals, metadata=m))
     rng.shuffle(cells)
-    return Triangle(cells), {"shape": shape, "P": P, "L": L, "slices": n_slices, "fields": fields}
+    return Triangle(cells), {"shape": shape, "P": P, "L": L, "slices": n_slices, "fields": fields, "feb": feb, "res": res}
 
 
 def gen_sample_triangle(rng, positive=False):
@@ -223,7 +232,7 @@ def gen_sample_triangle(rng, positive=False):
     kinds = rng.sample(["B", "scalar", "float", "len1", "none"], rng.randint(1, 4))
     # prediction-style triangles: some cells are OBSERVED (scalars in the sampled fields), the others carry
     # samples; "first": the first cell in triangle order is observed, "some": random cells are
-    mixed = "no" if positive else rng.choice(["no", "no", "first", "first", "some"])
+    mixed = "no" if positive else rng.choice(["no", "no", "first", "first", "some", "last", "last"])
     first_key = None
     for m in metas(rng, n_slices):
         for ps, pe, evs in rows:
@@ -243,10 +252,19 @@ def gen_sample_triangle(rng, positive=False):
                 cells.append(CumulativeCell(period_start=ps, period_end=pe, evaluation_date=e, values=vals, metadata=m))
     if mixed != "no" and len(cells) > 1:
         order = sorted(range(len(cells)), key=lambda j: cells[j])
-        observed = {order[0]} if mixed == "first" else {j for j in order if rng.random() < 0.4}
-        if mixed == "first" and rng.random() < 0.5:
-            observed |= {j for j in order[1:-1] if rng.random() < 0.3}
-        observed -= {order[-1]}                                   # keep at least one sampled cell
+        if mixed == "last":
+            # scalar-only cells come LAST in sort order: the whole last-sorting slice is observed-only (multi
+            # slice), or the trailing cell(s) of the only slice
+            last_meta = cells[order[-1]].metadata
+            observed = {j for j in order if cells[j].metadata == last_meta}
+            if len(observed) == len(cells):
+                observed = set(order[-rng.randint(1, max(1, len(cells) // 2)):])
+            observed -= {order[0]}                                    # keep at least one sampled cell
+        else:
+            observed = {order[0]} if mixed == "first" else {j for j in order if rng.random() < 0.4}
+            if mixed == "first" and rng.random() < 0.5:
+                observed |= {j for j in order[1:-1] if rng.random() < 0.3}
+            observed -= {order[-1]}                                   # keep at least one sampled cell
         for j in observed:
             c = cells[j]
             obs = {f: (int(v[0]) if isinstance(v, np.ndarray) and v.dtype.kind == "i" and len(v) > 1 else
@@ -271,13 +289,21 @@ def strip_boot(m):
 
 
 # ------------------------------------------------------------------------------------------ thin
+def true_num_samples(t):
+    """Sample count computed independently of Triangle.num_samples: the common size of all arrays of size > 1
+    (None if they disagree), 1 if there is none."""
+    sizes = {v.size for c in t.cells for v in c.values.values() if isinstance(v, np.ndarray) and v.size > 1}
+    return 1 if not sizes else (sizes.pop() if len(sizes) == 1 else None)
+
+
 def thin_case(seed):
     """-> dict(coq=bool-term|None, fails=[...], info)"""
     import bermuda.utils as U
 
     rng = random.Random(seed)
     t, n, info = gen_sample_triangle(rng)
-    k = rng.choice([1, 2, n - 1, n, n, n + 1, rng.randint(1, n + 2)])
+    n = true_num_samples(t)                      # from the arrays themselves, not from the library
+    k = rng.choice([1, 1, 2, n - 1, n, n, n + 1, rng.randint(1, n + 2)])
     k = max(1, k)
     s = rng.choice([0, 0, 1, 2**32 - 1, rng.randrange(10**6), rng.randrange(10**6), rng.randrange(10**6)])
     fails = []
@@ -290,7 +316,12 @@ def thin_case(seed):
     draws = [d for kind, d in rec.log if kind == "choice"]
     ndxs = draws[0] if draws else []
     info.update(k=k, outcome="raised" if exc else "returned")
-    # ---- direct oracles
+    # ---- direct oracles (n is the TRUE sample count)
+    try:
+        if t.num_samples != n:
+            fails.append(f"Triangle.num_samples = {t.num_samples} but every sample array holds {n} samples")
+    except ValueError:
+        fails.append("Triangle.num_samples refuses a triangle whose sample arrays all have the same size")
     if k > n:
         if not isinstance(exc, ValueError):
             fails.append(f"k={k} > n={n} not refused with ValueError: {exc!r}")
@@ -344,8 +375,10 @@ def thin_case(seed):
             fails.append(f"positions {positions} differ from the recorded draw {ndxs}")
         if len(draws) != 1:
             fails.append(f"{len(draws)} index vectors drawn instead of one")
+        if true_num_samples(out) != k:
+            fails.append(f"thinned triangle holds {true_num_samples(out)} samples per array, wanted {k}")
         try:
-            if out.num_samples != (k if k > 1 or n == 1 else 1):
+            if out.num_samples != k:
                 fails.append(f"thinned triangle reports num_samples={out.num_samples}, wanted {k}")
         except ValueError:
             fails.append("thinned triangle has inconsistent sample counts")
@@ -775,6 +808,8 @@ def run(ctx):
             if kind in ("thin", "bootstrap"):
                 ctx.hist(f"{kind}:seed={'0' if info.get('seed') == 0 else 'nonzero'} (same seed called twice)")
             if kind == "bootstrap":
+                if info.get("feb"):
+                    ctx.hist(f"bootstrap:month ends incl. February {info['feb']}")
                 for m in info.get("methods", []):
                     ctx.hist(f"bootstrap:method={m}")
                 ctx.hist("bootstrap:max-entropy series", info.get("me_series", 0))
